@@ -395,3 +395,69 @@ Proof.
   split; [vm_compute; reflexivity|]. split; [reflexivity|]. split; [intros h []|].
   vm_compute. reflexivity.
 Qed.
+
+(* ---- conflict detection is exact: a sequence is fatal ONLY IF two registrations (or two
+   methods of one) map to one name in one namespace ---- *)
+Lemma NoDup_app_inv {A} (a b : list A) :
+  NoDup (a ++ b) -> NoDup a /\ NoDup b /\ (forall x, In x a -> ~ In x b).
+Proof.
+  induction a as [|x a IH]; cbn [app]; intros H.
+  - repeat split; [constructor | exact H | intros x []].
+  - inversion H as [|? ? Hni Hnd]; subst. destruct (IH Hnd) as (Ha & Hb & Hd). repeat split.
+    + constructor; [intros Hi; apply Hni; apply in_app_iff; left; exact Hi | exact Ha].
+    + exact Hb.
+    + intros y [->|Hy]; [intros Hi; apply Hni; apply in_app_iff; right; exact Hi | apply Hd; exact Hy].
+Qed.
+
+Lemma reg_loop_total hs : forall t,
+  NoDup (map fst hs) -> (forall n, In n (map fst hs) -> ~ In n (map fst t)) ->
+  exists t', reg_loop t hs = Ok t'.
+Proof.
+  induction hs as [|[n h] r IH]; intros t Hnd Hdis; cbn [reg_loop]; [eauto|].
+  cbn [map fst] in Hnd, Hdis. inversion Hnd as [|? ? Hni Hnd']; subst.
+  destruct (t_get t n) eqn:E.
+  - exfalso. apply (Hdis n (or_introl eq_refl)). apply t_get_some_in in E.
+    apply in_map_iff. eexists. split; [|exact E]. reflexivity.
+  - apply IH; [exact Hnd'|]. intros m Hm. cbn [map fst In]. intros [Hk|Hk].
+    + subst. contradiction.
+    + apply (Hdis m (or_intror Hm)). exact Hk.
+Qed.
+
+Lemma map_key_log_of s hs : map key (log_of s hs) = map (pair s) (map fst hs).
+Proof. unfold log_of. rewrite !map_map. reflexivity. Qed.
+
+Lemma run_total k ops : forall r lg,
+  inv (r, lg) -> NoDup (map key (lg ++ returned_log k ops)) -> exists st, run k (r, lg) ops = Ok st.
+Proof.
+  induction ops as [|o rest IH]; intros r lg Hinv Hnd; cbn [run]; [eauto|].
+  cbn [returned_log flat_map] in Hnd. fold (returned_log k rest) in Hnd.
+  destruct o as [s g it | s g h]; cbn [op_log] in Hnd.
+  - set (hs := handlers_of k (group_prefix k g) it) in *.
+    rewrite app_assoc, map_app in Hnd. destruct (NoDup_app_inv _ _ Hnd) as (Hnd1 & _ & _).
+    rewrite map_app in Hnd1. destruct (NoDup_app_inv _ _ Hnd1) as (_ & Hnew & Hdis).
+    rewrite map_key_log_of in Hnew, Hdis.
+    destruct Hinv as (Htn & Hiff & Hlog).
+    destruct (reg_loop_total hs (tbl r s)) as [t' E].
+    + apply NoDup_map_inv in Hnew. exact Hnew.
+    + intros n Hn Ht. apply in_map_iff in Ht. destruct Ht as ([n' h'] & En & Ht). cbn in En. subst n'.
+      apply Hiff in Ht. apply (Hdis (s, n)).
+      * apply in_map_iff. exists (s, h', n). split; [reflexivity | exact Ht].
+      * apply in_map. exact Hn.
+    + assert (Hstep : step k (r, lg) (OReg s g it) = Ok (set_tbl r s t', lg ++ log_of s hs)).
+      { cbn [step]. fold hs. rewrite E. reflexivity. }
+      rewrite Hstep. apply IH.
+      * eapply step_inv; [|exact Hstep]. exact (conj Htn (conj Hiff Hlog)).
+      * rewrite <- map_app in Hnd. rewrite <- app_assoc in Hnd. rewrite <- app_assoc. exact Hnd.
+  - cbn [step]. apply IH.
+    + apply (step_inv k (r, lg) (OSetUnknown s g h)); [exact Hinv | reflexivity].
+    + exact Hnd.
+Qed.
+
+Lemma run_ok_iff_nodup k ops :
+  (exists r lg, run k init ops = Ok (r, lg)) <-> NoDup (map key (returned_log k ops)).
+Proof.
+  split.
+  - intros (r & lg & H). eapply run_ok_nodup. exact H.
+  - intros Hnd. destruct (run_total k ops empty_router [] inv_init Hnd) as [[r lg] H].
+    exists r, lg. exact H.
+Qed.
